@@ -5,6 +5,7 @@ written tables (exact doubles as mant/exp pairs)."""
 import glob, math, os, random, re, shutil, subprocess, sys, tempfile
 from concurrent.futures import ThreadPoolExecutor
 
+os.environ.setdefault("OMP_NUM_THREADS", "1")     # many runs in parallel: one thread each (no oversubscription, no timeouts under load)
 VERIF = os.path.dirname(os.path.dirname(os.path.abspath(__file__)))
 
 
@@ -57,7 +58,7 @@ def run_one(exe, s):
         with open(os.path.join(d, "g.idx"), "w") as f:
             for k, (a, b) in enumerate(s["ranges"]):
                 f.write("T%d %d:%d\n" % (k, a, b))
-        r = subprocess.run([exe, "-i", "g.imc", "-g", "g.gmc", "-n", "g.idx", "-r", repr(s["r"])], cwd=d, stdout=subprocess.PIPE, stderr=subprocess.PIPE, timeout=60)
+        r = subprocess.run([exe, "-i", "g.imc", "-g", "g.gmc", "-n", "g.idx", "-r", repr(s["r"])], cwd=d, stdout=subprocess.PIPE, stderr=subprocess.PIPE, timeout=600)
         status = "ok" if r.returncode == 0 else (r.stderr.decode(errors="replace")[-120:].strip().encode().hex() or "-")
         out = ["C06 imc %s %d %s" % (s["sid"], s["n"], me(s["r"]))]
         out.append(" ".join(me(v) for row in s["A"] for v in row))
